@@ -31,6 +31,7 @@ var (
 	fMinimise = flag.String("minimise", "", "minimise this failing case file (driver use)")
 	fNoRef    = flag.Bool("noref", false, "skip the isolated reference pass (race workers: the race detector is the oracle)")
 	fClass    = flag.String("class", "", "violation class to preserve while minimising / to expect on replay")
+	fList     = flag.String("list", "", "comma-separated run indices to execute, in that order (instead of -first/-runs)")
 )
 
 type RunRecord struct {
@@ -232,11 +233,24 @@ func TestSim(t *testing.T) {
 	}
 
 	seenClass := map[string]bool{}
-	for i := 0; i < *fRuns; i++ {
+	order := make([]int, 0, *fRuns)
+	if *fList != "" {
+		for _, f := range strings.Split(*fList, ",") {
+			var k int
+			if _, err := fmt.Sscanf(strings.TrimSpace(f), "%d", &k); err != nil {
+				t.Fatalf("bad -list entry %q", f)
+			}
+			order = append(order, k)
+		}
+	} else {
+		for i := 0; i < *fRuns; i++ {
+			order = append(order, *fFirst+i)
+		}
+	}
+	for _, run := range order {
 		if *fBudget > 0 && time.Since(start) > *fBudget {
 			break
 		}
-		run := *fFirst + i
 		c, err := genCase(*fMode, *fSeed, run, *fTier)
 		if err != nil {
 			t.Fatal(err)
